@@ -71,3 +71,21 @@ Theorem C10_validate : forall a,
   (forall s, iscan_validate a = Some s -> s = St_ERR_BAD_USAGE).
 Proof. exact iscan_validate_spec. Qed.
 Print Assumptions C10_validate.
+
+(** ** Finding F12: the cursor's node-version set.  With both endpoints inside ONE next-layer slice that holds no entry
+    (["abcdefghx", "abcdefghz"], both inclusive, nothing under "abcdefgh") the pinned cursor made no callback at all:
+    the tuples of the two endpoints are equal (both the link tuple of the slice), and "the callback range is empty"
+    was concluded from that.  [iscan_all_orig] is the pinned behaviour, [iscan_all] the repaired one. *)
+Definition c10_f12_tree : tree :=
+  match put (empty_tree 1) [97] {| v_id := 2; v_bytes := [1]; v_align := 8; v_inline := false |} false 3 with
+  | Some (tr, _, _) => tr
+  | None => null_tree
+  end.
+Definition c10_f12_args : iscan_args :=
+  {| ia_l := [97;98;99;100;101;102;103;104;120]; ia_le := EP_INCL;
+     ia_r := [97;98;99;100;101;102;103;104;122]; ia_re := EP_INCL; ia_rtl := false; ia_lnull := false; ia_rnull := false |}.
+Theorem C10_original_cursor_empty_nodeset_refuted :
+  (exists st kvs, iscan_all_orig c10_f12_tree c10_f12_args = Some (st, kvs, [])) /\
+  (exists st kvs cb cbs, iscan_all c10_f12_tree c10_f12_args = Some (st, kvs, cb :: cbs)).
+Proof. split; vm_compute; repeat eexists. Qed.
+Print Assumptions C10_original_cursor_empty_nodeset_refuted.
